@@ -446,6 +446,16 @@ fn sig(wl: &Workload, r: &SimResult) -> Vec<String> {
     if wl.gc {
         s.push("gc-on".into());
     }
+    // which panic (clause P): a known finding must name its panic, so that another one is still reported
+    if let Some(p) = r.out.panics.first() {
+        s.push(if p.contains("invalid slab index") {
+            "panic:invalid-slab-index"
+        } else if p.contains("Could not retrieve submodule for mod_path") {
+            "panic:submodule-missing-from-namespace"
+        } else {
+            "panic:other"
+        }.to_string());
+    }
     // where do the two servers disagree?
     if let (Some(inc), Some(fresh), Some(last)) = (&r.obs.diagnostics, &r.obs.ref_diagnostics, last_edited_doc(wl)) {
         // diagnostics are keyed by file name (sim.rs), so compare on the base name
